@@ -437,9 +437,10 @@ def c14_dup_classify(line, res):
 def c14_streams_gen(rng, tier):
     out = []
 
-    def add(tr, m, k, fault, conc, after=3):
-        out.append("t%d tr=%s m=%d k=%d fault=%s conc=%d dl=%d after=%d" % (len(out), tr, m, k, fault, conc,
-                                                                            rng.choice([250, 300, 350]), after))
+    def add(tr, m, k, fault, conc, after=3, fin=None, aconc=0):
+        out.append("t%d tr=%s m=%d k=%d fault=%s conc=%d dl=%d after=%d%s%s" % (
+            len(out), tr, m, k, fault, conc, rng.choice([250, 300, 350]), after,
+            "" if fin is None else " fin=%s" % fin, "" if not aconc else " aconc=1"))
 
     for _ in range(budget(tier, 1, 8)):
         for tr in ("doq", "doh"):
@@ -449,6 +450,24 @@ def c14_streams_gen(rng, tier):
                 add(tr, m, m + rng.choice([1, 2, 4]), fault, rng.choice([0, 1]))
                 add(tr, rng.choice([4, 6]), rng.choice([1, 2, 3]), fault, 1)   # below the limit
             add(tr, 4, 8, rng.choice(["lie", "silent"]), 1, after=rng.choice([1, 5]))
+        # --- round 6: the server ANSWERS correctly but treats its side of the stream in its own way; limit + k
+        #     answered exchanges on the one connection, one after the other and in batches
+        for fin in ("never", "late", "reset"):
+            m = rng.choice([3, 4])
+            add("doq", m, 0, "lie", 0, after=m + rng.choice([2, 4, 6]), fin=fin)
+            m = rng.choice([3, 4, 6])
+            add("doq", m, 0, "lie", 0, after=2 * m + rng.choice([1, 3]), fin=fin, aconc=1)
+        add("doq", 3, 3, rng.choice(["lie", "silent"]), 1, after=6, fin=rng.choice(["never", "late", "reset"]))
+        # HTTP: a response is complete only when its stream has ended; "late" is the conforming variant, "nofin" (the
+        # whole body, the stream never ended) is abandoned at the deadline
+        for tr in ("doh", "h3"):
+            m = rng.choice([3, 4])
+            add(tr, m, 0, "lie", 0, after=m + rng.choice([2, 4]), fin="late")
+            add(tr, m, 0, "lie", 0, after=2 * m + 1, fin=rng.choice(["now", "late"]), aconc=1)
+        add("doh", 4, rng.choice([4, 6]), "nofin", rng.choice([0, 1]), after=4)
+        # h3 (the library's client): abandoned exchanges below the limit only - whether the http3 SERVER gives a stream
+        # back before its handler returns is the server's business
+        add("h3", 4, 2, rng.choice(["nofin", "silent", "lie"]), rng.choice([0, 1]), after=4, fin=rng.choice(["now", "late"]))
     return out
 
 
@@ -461,15 +480,27 @@ def c14_streams_oracle(line, res):
     if after == "" or any(c not in "RE" for c in bad + after):
         return "c14-bad-result %s" % res
     if "E" in after:
+        if int(f["k"]) == 0:
+            return ("c14-stream-capacity-leaked: the server answers every query correctly (its side of the stream: %s) "
+                    "and allows %s concurrent streams; at most %s exchanges were in flight at a time, but %d of %d "
+                    "failed; streams still open at the server afterwards: %s (%s)"
+                    % (f.get("fin", "now"), f["m"], "m-1" if f.get("aconc") == "1" else "1", after.count("E"),
+                       len(after), r.get("left"), res))
         return ("c14-stream-capacity-leaked: %s exchanges were abandoned at their deadline (%s) on a connection whose "
                 "peer allows %s concurrent streams; afterwards the server answers every query, but %d of %d exchanges "
                 "failed (%s)" % (f["k"], f["fault"], f["m"], after.count("E"), len(after), res))
+    if r.get("left") not in (None, "0") and f["tr"] == "doq":
+        return ("c14-stream-credit-not-returned: every exchange is over, but the server still counts %s of the streams "
+                "it ANSWERED as open (its side: %s): the client never told it to stop sending (%s)"
+                % (r["left"], f.get("fin", "now"), res))
     return None
 
 
 def c14_streams_compare(ir, mr):
     a, b = _res(ir), _res(mr)
-    return a.get("bad") == b.get("bad") and a.get("after") == b.get("after")
+    if a.get("bad") != b.get("bad") or a.get("after") != b.get("after"):
+        return False
+    return "left" not in a or "left" not in b or a["left"] == b["left"]
 
 
 def c14_streams_classify(line, res):
@@ -516,6 +547,34 @@ def c14_stall_compare(ir, mr):
     return a.get("res") == b.get("res") and a.get("late") == b.get("late")
 
 
+
+# ---------------------------------------------------------------- round 6: kind "idlimit"
+# a pipelined connection runs out of wire ids between two exchanges (connections born at nextQid = q0)
+def c14_idlimit_gen(rng, tier):
+    out = []
+    for _ in range(budget(tier, 1, 6)):
+        for tr in ("udp", "tcpp"):
+            for q0 in (65535, 65534, rng.choice([65530, 65532, 65533])):
+                out.append("i%d tr=%s q0=%d n=%d" % (len(out), tr, q0, rng.choice([4, 6, 9])))
+            out.append("i%d tr=%s q0=%d n=4" % (len(out), tr, rng.choice([0, 1000, 65000])))
+    return out
+
+
+def c14_idlimit_oracle(line, res):
+    f = gens.fields(line)
+    r = _res(res)
+    s = r.get("res", "")
+    if r.get("late") == "1" or "H" in s or "L" in s:
+        return "c14-late: an exchange returned later than its deadline + 1.5 s (%s)" % res
+    if s == "" or any(c not in "RE" for c in s):
+        return "c14-bad-result %s" % res
+    if "E" in s:
+        return ("c14-exhausted-connection-not-replaced: healthy server; the pooled connection ran out of wire ids (they "
+                "start at %s), but the exchange that met it was not carried by another connection: %d of %d failed, "
+                "connections seen by the server: %s (%s)" % (f["q0"], s.count("E"), len(s), r.get("acc"), res))
+    return None
+
+
 PROPS["C14"] = dict(
     kinds=[dict(name="faults", gen=c14_gen, oracle=c14_oracle, compare=c14_compare, classify=c14_classify,
                 nontrivial=lambda l, r: True, timeout=900),
@@ -532,7 +591,11 @@ PROPS["C14"] = dict(
                 classify=c14_streams_classify, nontrivial=lambda l, r: True, timeout=600),
            dict(name="stall", gen=c14_stall_gen, oracle=c14_stall_oracle, compare=c14_stall_compare,
                 classify=lambda l, r: "%s/%s/%s" % (gens.fields(l)["tr"], gens.fields(l)["srv"], _res(r).get("res")),
-                nontrivial=lambda l, r: True, timeout=600)],
+                nontrivial=lambda l, r: True, timeout=600),
+           dict(name="idlimit", gen=c14_idlimit_gen, oracle=c14_idlimit_oracle,
+                compare=lambda a, b: _res(a).get("res") == _res(b).get("res") and _res(a).get("acc") == _res(b).get("acc"),
+                classify=lambda l, r: "%s/%s" % (gens.fields(l)["tr"], "ok" if set(_res(r).get("res", "E")) <= set("R") else "failed"),
+                nontrivial=lambda l, r: True, timeout=300)],
     rule="one scripted exchange of a real upstream.NewUpstream (udp, tcp, tcp+pipeline, tls, tls+pipeline, https/h2, quic) "
          "against a fake loopback server (DoQ: quic-go server): refuse / black-hole dial / accept-and-close / silent / half frame / garbage / "
          "FIN / RST on fresh connections, and on pooled connections while idle or at their next use, incl. k = 1, 5, 6, "
